@@ -1,5 +1,7 @@
 SPEC = {
-    "corr": [{"kind": "nf5", "quick": 10000, "thorough": 1000000}],
+    "corr": [{"kind": "nf5", "quick": 10000, "thorough": 1000000},
+             # the v5 encoder under the real concurrent workers
+             {"kind": "pipeline", "quick": 48, "thorough": 1600, "runner": {"pkg": "./vflow", "test": "TestVerifPipeline", "race": False}}],
     "rule": "generated NetFlow v5 datagrams: random header and record contents, counts 0..31, versions 5 and other, lengths "
             "short / one short / exact / with trailing octets; decoded and marshalled by the real netflow5 code, compared with the "
             "model (decode result and JSON byte-for-byte); oracle = the abstract packet the datagram was generated from (must be "
